@@ -684,6 +684,7 @@ func finish(id string, cfg *CheckConfig, tier string, seed int64, results []*Job
 	var lines []string
 	nViol := 0
 	replayed := 0
+	knownCount := map[string]int{}
 	for _, v := range viols {
 		kf := matchKnown(known, id, v)
 		if !noReplay {
@@ -697,7 +698,10 @@ func finish(id string, cfg *CheckConfig, tier string, seed int64, results []*Job
 		case v.Status == "not-reproduced":
 			problems = append(problems, fmt.Sprintf("ENCODING-MISMATCH: %s (%s) did not reproduce natively: %s", v.AssertID, v.Harness, vp))
 		case kf != nil:
-			lines = append(lines, fmt.Sprintf("KNOWN-FINDING: property=%s %s [%s] %s", id, kf.ID, v.AssertID, kf.What))
+			knownCount[kf.ID]++
+			if knownCount[kf.ID] == 1 {
+				lines = append(lines, fmt.Sprintf("KNOWN-FINDING: property=%s %s %s (first seen at %s in %s)", id, kf.ID, kf.What, v.AssertID, v.Harness))
+			}
 		default:
 			nViol++
 			rp := v.Replay
@@ -757,6 +761,7 @@ func finish(id string, cfg *CheckConfig, tier string, seed int64, results []*Job
 		"native_cross_validated_paths": xOK,
 		"violations_detail":   viols,
 		"known_lines":         lines,
+		"known_finding_occurrences": knownCount,
 	}
 	if level == "model_checking" {
 		if states == 0 {
@@ -789,7 +794,7 @@ func finish(id string, cfg *CheckConfig, tier string, seed int64, results []*Job
 		os.WriteFile(filepath.Join(qd, sanitize(k)+".smt2"), []byte(v), 0o644)
 	}
 	fmt.Printf("symgo %s tier=%s: harnesses=%d paths=%d assertions=%d discharged=%d queries=%d violations=%d known=%d problems=%d wall=%.1fs\n",
-		id, tier, len(allStats), paths, obligations, discharged, evals, nViol, len(lines)-nViol, len(problems), time.Since(t0).Seconds())
+		id, tier, len(allStats), paths, obligations, discharged, evals, nViol, len(knownCount), len(problems), time.Since(t0).Seconds())
 	return exit
 }
 
